@@ -45,10 +45,10 @@ def has_skip(item):
 PROPS = {
     'C01': dict(traits=None, part='header', theorems=['DW.C01_applies_iff', 'DW.C01_unlisted_unconstrained', 'DW.C01_no_leak', 'DW.C01_merge_sound', 'DW.dedupGo_generics'],
                 enums=['bounds'], configs_quick=['default', 'safe', 'zod'], design='7/C01'),
-    'C02': dict(traits=None, part='all', count=True, theorems=['DW.C02_impl_list', 'DW.C02_delegation_same_bounds', 'DW.implPreds_shortcut', 'DW.C18_effect', 'DW.C09_fieldwise', 'DW.C06_skipped_never_mentioned', 'DW.C02_obligations', 'DW.C02_well_typed', 'DW.typeable_of_validated'],
+    'C02': dict(traits=None, part='all', count=True, theorems=['DW.C02_impl_list', 'DW.C02_delegation_same_bounds', 'DW.implPreds_shortcut', 'DW.C18_effect', 'DW.C09_fieldwise', 'DW.C06_skipped_never_mentioned', 'DW.C02_obligations', 'DW.C02_well_typed', 'DW.typeable_of_validated', 'DW.NonVacuous.accepted', 'DW.NonVacuous.rawOK'],
                 enums=None, configs_quick=['default', 'safe', 'zod'], diagnostics=True, design='7/C02'),
     'C03': dict(traits=['PartialEq'], theorems=['DW.C03_eq'], enums=['incomparable', 'skip'], design='7/C03'),
-    'C04': dict(tables=True, traits=['PartialOrd', 'Ord'], theorems=['DW.buildDiscriminants_spec', 'DW.C04_ord_refines', 'DW.C04_delegation', 'DW.C04_agree'],
+    'C04': dict(tables=True, traits=['PartialOrd', 'Ord'], theorems=['DW.buildDiscriminants_spec', 'DW.C04_ord_refines', 'DW.C04_delegation', 'DW.C04_agree', 'DW.NonVacuous.tiOK', 'DW.NonVacuous.vals'],
                 enums=['discriminants', 'incomparable', 'skip'], configs_quick=['default', 'safe', 'nightly'], design='7/C04'),
     'C05': dict(tables=True, traits=['PartialEq', 'Eq', 'PartialOrd', 'Ord', 'Hash'],
                 theorems=['DW.C05_skip_uniform', 'DW.C05_skip_hash_superset', 'DW.C05_eq_iff_pcmp', 'DW.C05_eq_symm', 'DW.C05_eq_trans',
@@ -120,7 +120,7 @@ def proof_obligations(prop, thorough):
     os.makedirs(runner.WORK, exist_ok=True)
     audit = os.path.join(runner.WORK, 'Audit_%s.lean' % prop)
     with open(audit, 'w') as f:
-        f.write('import %s\n' % module + ''.join('#print axioms %s\n' % t for t in spec['theorems']))
+        f.write('import %s\nimport DW.Props.NonVacuous\n' % module + ''.join('#print axioms %s\n' % t for t in spec['theorems']))
     rc, out = sh(['lake', 'env', 'lean', audit], cwd=LEAN)
     axioms, discharged = {}, 0
     for t in spec['theorems']:
